@@ -699,6 +699,43 @@ fn run_withlen<R: swimos_form::read::Recognizer>(
     (Err("NoValueAtEof".to_string()), buf.len() + pad)
 }
 
+/// The same frame twice through ONE decoder (the first cut as planned, the second arriving with the
+/// last piece of the first): the decoder must reset itself and stay aligned.  Returns both results
+/// and what is left in the buffer (must be nothing).
+fn run_withlen_two<R: swimos_form::read::Recognizer>(rec: R, bytes: &[u8], cuts: &[usize]) -> (Vec<Result<R::Target, String>>, usize) {
+    let mut frame = Vec::with_capacity(bytes.len() + 8);
+    frame.extend_from_slice(&(bytes.len() as u64).to_be_bytes());
+    frame.extend_from_slice(bytes);
+    let all_cuts: Vec<usize> = cuts.iter().map(|c| c + 8).collect();
+    let mut dec = WithLenRecognizerDecoder::new(rec);
+    let mut buf = BytesMut::new();
+    let parts = chunks(&frame, &all_cuts);
+    let n = parts.len();
+    let mut results = vec![];
+    for (i, part) in parts.into_iter().enumerate() {
+        buf.put_slice(part);
+        if i + 1 == n {
+            buf.put_slice(&frame);
+        }
+        match dec.decode(&mut buf) {
+            Ok(Some(v)) => results.push(Ok(v)),
+            Ok(None) => {}
+            Err(e) => results.push(Err(format!("{:?}", e))),
+        }
+    }
+    for _ in 0..4 {
+        if results.len() >= 2 {
+            break;
+        }
+        match dec.decode(&mut buf) {
+            Ok(Some(v)) => results.push(Ok(v)),
+            Ok(None) => {}
+            Err(e) => results.push(Err(format!("{:?}", e))),
+        }
+    }
+    (results, buf.len())
+}
+
 struct ChunkedReader<'a> {
     parts: Vec<&'a [u8]>,
     idx: usize,
@@ -816,7 +853,7 @@ where
     let mut wl_left_bad = 0usize;
     let mut rd_bad: Option<J> = None;
     let mut wl_bad: Option<J> = None;
-    let mut runs = 3usize;
+    let mut runs = 4usize;
     let mut sample: Option<J> = None;
     {
         // unchunked, nothing after the frame
@@ -830,6 +867,15 @@ where
             wl_bad = Some(json!({"cuts": [], "hdr_cut": 0, "sentinel": false, "got": w, "left": left, "calls": calls_json(&calls)}));
         }
         *wl_ids.entry(w).or_insert(0) += 1;
+        let (rs, left2) = run_withlen_two(T::make_recognizer(), bytes, &[]);
+        let ids: Vec<String> = rs.iter().map(|r| idf(r)).collect();
+        if !(ids.len() == 2 && ids[0] == expect && ids[1] == expect && left2 == 0) {
+            wl_left_bad += if left2 != 0 { 1 } else { 0 };
+            if wl_bad.is_none() {
+                wl_bad = Some(json!({"cuts": [], "two_frames": ids, "left": left2}));
+            }
+            *wl_ids.entry(format!("two:{}", ids.join("+"))).or_insert(0) += 1;
+        }
     }
     for (pi, cuts) in plans.list.iter().enumerate() {
         let mut calls = vec![];
@@ -853,6 +899,20 @@ where
             }
             if (w != expect || !left_ok) && wl_bad.is_none() {
                 wl_bad = Some(json!({"cuts": cuts, "hdr_cut": hc, "sentinel": sentinel, "got": w, "left": left, "calls": calls_json(&calls)}));
+            }
+            if pi % 5 == 1 && hc == 0 {
+                // two frames through one decoder
+                let (rs, left2) = run_withlen_two(T::make_recognizer(), bytes, cuts);
+                runs += 1;
+                let ids: Vec<String> = rs.iter().map(|r| idf(r)).collect();
+                let ok2 = ids.len() == 2 && ids[0] == expect && ids[1] == expect && left2 == 0;
+                if !ok2 {
+                    wl_left_bad += if left2 != 0 { 1 } else { 0 };
+                    if wl_bad.is_none() {
+                        wl_bad = Some(json!({"cuts": cuts, "two_frames": ids, "left": left2}));
+                    }
+                    *wl_ids.entry(format!("two:{}", ids.join("+"))).or_insert(0) += 1;
+                }
             }
             if sample.is_none() && cuts.len() >= 1 && calls.len() >= 2 {
                 sample = Some(json!({"cuts": cuts, "hdr_cut": hc, "calls": calls_json(&calls)}));
@@ -1053,6 +1113,11 @@ fn text_row(text_bytes: &[u8], spec: &J, with_text: bool) -> J {
                 row["nodes"] = sub["nodes"].clone();
                 row["depth"] = sub["depth"].clone();
                 row["pr"] = sub["pr"].clone();
+                if sub.get("canon").is_some() {
+                    // something did not come back: keep the diagnostics
+                    row["canon"] = sub["canon"].clone();
+                    row["text"] = json!(text);
+                }
             } else if let Err(e) = &r {
                 row["err"] = json!(e);
             }
@@ -1809,7 +1874,7 @@ fn run_case(case: &J) -> J {
 
 fn main() {
     std::panic::set_hook(Box::new(|_| {}));
-    let budget = Duration::from_secs(std::env::var("RECON_CASE_BUDGET_S").ok().and_then(|s| s.parse().ok()).unwrap_or(20));
+    let budget = Duration::from_secs(std::env::var("RECON_CASE_BUDGET_S").ok().and_then(|s| s.parse().ok()).unwrap_or(180));
     let stdin = std::io::stdin();
     let stdout = std::io::stdout();
     let mut out = std::io::BufWriter::new(stdout.lock());
